@@ -1293,7 +1293,9 @@ def fresh_tensor(shape, base, dtype=None, constrain=None):
         if constrain is not None:
             constrain(v)
     c.inputs["%s#%d" % (base, k)] = tuple(p.shape)
-    return SymTensor(p, dtype)
+    t = SymTensor(p, dtype)
+    c.env.setdefault("draws", {}).setdefault(base, []).append(t)
+    return t
 
 
 @handler("empty_like")
@@ -1377,6 +1379,34 @@ def h_linear(x, w, b=None):
                 acc = el.add(acc, payload(b)[o])
             out[idx + (o,)] = acc
     return SymTensor(out, _dtype_of(x, w))
+
+
+@handler("conv1d")
+def h_conv1d(input, weight, bias=None, stride=1, padding=0, dilation=1, groups=1):
+    if stride not in (1, (1,)) or dilation not in (1, (1,)) or groups != 1:
+        raise EngineUnsupported("conv1d with stride/dilation/groups")
+    pi, pw = payload(input), payload(weight)
+    pad = int(padding[0] if isinstance(padding, (tuple, list)) else padding)
+    B, Cin, L = pi.shape
+    Cout, Cin2, K = pw.shape
+    assert Cin == Cin2
+    zero = el.lift(0)
+    Lp = L + 2 * pad
+    out = np.empty((B, Cout, Lp - K + 1), dtype=object)
+    for b in range(B):
+        for o in range(Cout):
+            for t in range(Lp - K + 1):
+                acc = []
+                for ci in range(Cin):
+                    for k in range(K):
+                        j = t + k - pad
+                        if 0 <= j < L:
+                            acc.append(el.mul(pi[b, ci, j], pw[o, ci, k]))
+                r = el.sum_(acc) if acc else zero
+                if bias is not None:
+                    r = el.add(r, payload(bias)[o])
+                out[b, o, t] = r
+    return SymTensor(out, _dtype_of(input, weight))
 
 
 @handler("matmul", "__matmul__", "mm")
